@@ -77,3 +77,59 @@ fn d8_nested_adjacent_group_stays_inside_the_enclosing_block() {
     assert!(p.run_inner(&["--inner", "b", "--outer"]).is_err());
     assert_eq!(p.run_inner(&["--outer", "--inner", "a"]).unwrap(), ("a".to_owned(), None));
 }
+
+/// D9 (C05/C19): an adjacent command that succeeds on its second (narrowed) attempt must hand back the scope it was
+/// given, not the narrowed one - otherwise every item after the first already consumed one is silently dropped
+#[test]
+fn d9_adjacent_command_retry_keeps_later_items_visible() {
+    #[derive(Debug, Clone, PartialEq)]
+    enum Cmd {
+        Eat(String),
+        Sleep(u32),
+    }
+    let eat = positional::<String>("FOOD").to_options().command("eat").adjacent().map(Cmd::Eat);
+    let sleep = long("time").argument::<u32>("T").to_options().command("sleep").adjacent().map(Cmd::Sleep);
+    let c = short('c').switch();
+    let cmds = construct!([eat, sleep]).many();
+    let p = construct!(c, cmds).to_options();
+    // `-c` is claimed by the outer level first; the block `eat b` after it must not disappear
+    assert_eq!(
+        p.run_inner(&["eat", "a", "sleep", "--time", "5", "-c", "eat", "b"]).unwrap(),
+        (true, vec![Cmd::Eat("a".into()), Cmd::Sleep(5), Cmd::Eat("b".into())])
+    );
+    // and an item nobody accepts is still an error
+    assert!(p.run_inner(&["eat", "a", "eat", "b", "-c", "bogus"]).is_err());
+}
+
+/// D10 (C10): asking for help next to a failing adjacent group still prints help
+#[test]
+fn d10_help_next_to_failing_adjacent_group() {
+    let point = {
+        let tag = long("point").req_flag(());
+        let x = positional::<u32>("X");
+        let y = positional::<u32>("Y");
+        construct!(tag, x, y).adjacent().map(|(_, x, y)| (x, y))
+    };
+    let v = short('v').switch();
+    let p = construct!(v, point).to_options();
+    for args in [&["--help", "--point", "1"][..], &["--point", "1", "--help", "2"][..], &["--point", "1", "--help"][..]] {
+        match p.run_inner(args) {
+            Err(ParseFailure::Stdout(..)) => {}
+            other => panic!("{:?} should print help, got {:?}", args, other.map_err(|e| e.unwrap_stderr())),
+        }
+    }
+}
+
+/// D11 (C10), KNOWN FINDING, not repaired: `cmd --help` while a required option of the enclosing level is missing reports
+/// the missing option instead of the help of `cmd`. This test pins the current (defective) behaviour so that the record in
+/// known_findings.json stays tied to a concrete input; when bpaf is fixed this test must be flipped.
+#[test]
+fn d11_known_required_outer_field_masks_subcommand_help() {
+    let req = long("req").argument::<u32>("N");
+    let cmd = short('x').switch().to_options().descr("the command").command("cmd");
+    let p = construct!(req, cmd).to_options();
+    let r = p.run_inner(&["cmd", "--help"]);
+    assert!(matches!(r, Err(ParseFailure::Stderr(_))), "D11 seems to be fixed: update known_findings.json");
+    // with the option given, help of the innermost command is printed as C10 demands
+    assert!(matches!(p.run_inner(&["--req", "1", "cmd", "--help"]), Err(ParseFailure::Stdout(..))));
+}
